@@ -10,16 +10,17 @@ import Wbxml.Model.Codec.Base64
 import Wbxml.Lemmas.CodecMb
 import Wbxml.Lemmas.CodecEntity
 import Wbxml.Lemmas.CodecBase64
+import Wbxml.Props.C11
 namespace Wbxml.Lemmas.ParserBridge
 open Wbxml Wbxml.Model
 
 /-! ### Bit operators on octets, arithmetically (complete enumeration of the 256 values) -/
 
-theorem and7F_fin : ∀ b : Fin 256, b.val &&& 0x7F = b.val % 128 := by decide
-theorem and80_fin : ∀ b : Fin 256, (b.val &&& 0x80 == 0) = decide (b.val / 128 % 2 = 0) := by decide
-theorem and3_fin : ∀ b : Fin 256, b.val &&& 3 = b.val % 4 := by decide
-theorem andF_fin : ∀ b : Fin 256, b.val &&& 0xF = b.val % 16 := by decide
-theorem and3F_fin : ∀ b : Fin 256, b.val &&& 0x3F = b.val % 64 := by decide
+theorem and7F_fin : ∀ b : Fin 256, b.val &&& 0x7F = b.val % 128 := by decide +kernel
+theorem and80_fin : ∀ b : Fin 256, (b.val &&& 0x80 == 0) = decide (b.val / 128 % 2 = 0) := by decide +kernel
+theorem and3_fin : ∀ b : Fin 256, b.val &&& 3 = b.val % 4 := by decide +kernel
+theorem andF_fin : ∀ b : Fin 256, b.val &&& 0xF = b.val % 16 := by decide +kernel
+theorem and3F_fin : ∀ b : Fin 256, b.val &&& 0x3F = b.val % 64 := by decide +kernel
 
 theorem and7F (b : UInt8) : b.toNat &&& 0x7F = b.toNat % 128 := and7F_fin ⟨b.toNat, b.toNat_lt⟩
 theorem and80 (b : UInt8) : (b.toNat &&& 0x80 == 0) = decide (b.toNat / 128 % 2 = 0) := and80_fin ⟨b.toNat, b.toNat_lt⟩
@@ -36,8 +37,8 @@ theorem mbLoop_eq : ∀ (n acc : Nat) (bs : Bytes), mbLoop n acc bs = Codec.mbDe
   | n + 1, acc, b :: r => by
     simp only [mbLoop, Codec.mbDecodeLoop]
     rw [and7F, and80, Nat.shiftLeft_eq, mbLoop_eq n _ r]
-    have : (2 : Nat) ^ 7 = 128 := by decide
-    have h32 : (2 : Nat) ^ 32 = 4294967296 := by decide
+    have : (2 : Nat) ^ 7 = 128 := by decide +kernel
+    have h32 : (2 : Nat) ^ 32 = 4294967296 := by decide +kernel
     rw [this, h32]
     simp only [decide_eq_true_eq]
 
@@ -49,10 +50,133 @@ theorem mbLoop_eq_mbDecode (bs : Bytes) : mbLoop 5 0 bs = Codec.mbDecode bs := m
     which leaves the cursor just behind it. -/
 theorem parseMb_mbEncode (s : PState) (v : Nat) (suf : Bytes) (hv : v < 2 ^ 32)
     (hs : s.rest = Codec.mbEncode v ++ suf) : parseMb s = .ok (v, { s with rest := suf }) := by
-  have h := mbLoop_eq_mbDecode (Codec.mbEncode v ++ suf)
-  have hr : Codec.mbDecode (Codec.mbEncode v ++ suf) = .ok (v, suf) := by
-    rw [Codec.mbEncode_eq_of_lt] <;> first | exact hv | skip
-    all_goals sorry
-  sorry
+  unfold parseMb
+  rw [hs, mbLoop_eq_mbDecode, Wbxml.Props.C11.mb_roundtrip v suf hv]
+  rfl
+
+/-! ### Base64 -/
+
+theorem b64Char_eq_sym (n : Nat) (h : n < 64) : b64Char n = Codec.sym n := by
+  have h1 : n % 64 = n := Nat.mod_eq_of_lt h
+  have h2 : n < Model.Codec.basis64.length := by rw [Codec.basis64_length]; exact h
+  unfold b64Char Codec.sym
+  rw [h1]
+  show b64Alphabet.getD n 0 = (Model.Codec.basis64[n]?).getD 61
+  have : b64Alphabet = Model.Codec.basis64 := rfl
+  rw [this, List.getD_eq_getElem?_getD, List.getElem?_eq_getElem h2]
+  rfl
+
+/-- The parser's `wbxml_base64_encode` copy is the codec's encoder (`Lemmas.Codec.enc`, which C11
+    proves equal to the RFC 4648 definition). -/
+theorem b64EncodeGo_eq_enc : ∀ (bs : Bytes), b64EncodeGo bs = Codec.enc bs
+  | a :: b :: c :: r => by
+    have ha := a.toNat_lt; have hb := b.toNat_lt; have hc := c.toNat_lt
+    simp only [b64EncodeGo, Codec.enc]
+    rw [and3, andF, and3F, Nat.shiftLeft_eq, Nat.shiftLeft_eq, Nat.shiftRight_eq_div_pow,
+      Nat.shiftRight_eq_div_pow, Nat.shiftRight_eq_div_pow, b64EncodeGo_eq_enc r]
+    have e2 : (2 : Nat) ^ 2 = 4 := by decide
+    have e4 : (2 : Nat) ^ 4 = 16 := by decide
+    have e6 : (2 : Nat) ^ 6 = 64 := by decide
+    rw [e2, e4, e6, Codec.or16 _ _ (by omega), Codec.or4 _ _ (by omega),
+      b64Char_eq_sym _ (by omega), b64Char_eq_sym _ (by omega), b64Char_eq_sym _ (by omega),
+      b64Char_eq_sym _ (by omega)]
+  | [a, b] => by
+    have ha := a.toNat_lt; have hb := b.toNat_lt
+    simp only [b64EncodeGo, Codec.enc]
+    rw [and3, andF, Nat.shiftLeft_eq, Nat.shiftLeft_eq, Nat.shiftRight_eq_div_pow, Nat.shiftRight_eq_div_pow]
+    have e2 : (2 : Nat) ^ 2 = 4 := by decide
+    have e4 : (2 : Nat) ^ 4 = 16 := by decide
+    rw [e2, e4, Codec.or16 _ _ (by omega),
+      b64Char_eq_sym _ (by omega), b64Char_eq_sym _ (by omega), b64Char_eq_sym _ (by omega)]
+  | [a] => by
+    have ha := a.toNat_lt
+    simp only [b64EncodeGo, Codec.enc]
+    rw [and3, Nat.shiftLeft_eq, Nat.shiftRight_eq_div_pow]
+    have e2 : (2 : Nat) ^ 2 = 4 := by decide
+    have e4 : (2 : Nat) ^ 4 = 16 := by decide
+    rw [e2, e4, b64Char_eq_sym _ (by omega), b64Char_eq_sym _ (by omega)]
+  | [] => rfl
+
+/-- `b64EncodeGo bs = Codec.b64Encode bs` (for every `bs`; the parser only calls it on `bs ≠ []`). -/
+theorem b64EncodeGo_eq (bs : Bytes) : b64EncodeGo bs = Model.Codec.b64Encode bs := by
+  rw [b64EncodeGo_eq_enc, Codec.b64Encode_eq_enc]
+
+/-- `decode_base64_value` seen through the codec API: NULL (empty input) is error 18, otherwise the
+    RFC 4648 encoding. -/
+theorem decodeBase64Value_eq (d : Bytes) :
+    decodeBase64Value d = match Model.Codec.b64EncodeApi d with
+      | none => .error (.code 18)
+      | some r => .ok r := by
+  unfold decodeBase64Value Model.Codec.b64EncodeApi
+  cases d with
+  | nil => rfl
+  | cons a r =>
+    have h1 : (a :: r).isEmpty = false := rfl
+    have h2 : ¬ (a :: r) = [] := by simp
+    simp only [h1, Bool.false_eq_true, if_false, h2, b64EncodeGo_eq]
+
+/-! ### Character entities -/
+
+/-- The parser's shift-by-6 loop is the codec's, whenever the latter stays inside its arrays (which
+    `Lemmas.Codec.entityLoop_ok` proves for every accepted code). -/
+theorem entityLoop_eq : ∀ (index code : Nat) (tail : Bytes) (f : Nat) (bs : Bytes),
+    Model.Codec.entityLoop index code tail = .ok bs → index < f → entityLoop f code index tail = bs
+  | index, code, tail, 0, bs, _, hf => by omega
+  | index, code, tail, f + 1, bs, h, hf => by
+    rw [Model.Codec.entityLoop.eq_def] at h
+    rw [entityLoop, Nat.shiftRight_eq_div_pow]
+    by_cases hc : code ≥ 0x40 / 2 ^ (5 - index)
+    · simp only [hc, if_true] at h ⊢
+      cases index with
+      | zero => cases h
+      | succ i =>
+        simp only at h
+        have h6 : code >>> 6 = code / 64 := by rw [Nat.shiftRight_eq_div_pow]
+        have h3f : code &&& 0x3F = code % 64 := Nat.and_two_pow_sub_one_eq_mod code 6
+        rw [h6, h3f]
+        exact entityLoop_eq i _ _ f bs h (by omega)
+    · simp only [hc, if_false] at h ⊢
+      cases hm : Model.Codec.entityMasks[index]? with
+      | none => rw [hm] at h; cases h
+      | some m =>
+        rw [hm] at h
+        simp only [Except.ok.injEq] at h
+        have : [0xFC, 0xF8, 0xF0, 0xE0, 0xC0].getD index 0 = m := by
+          have hm' : ([0xFC, 0xF8, 0xF0, 0xE0, 0xC0] : List Nat)[index]? = some m := hm
+          rw [List.getD_eq_getElem?_getD, hm']; rfl
+        rw [this, ← h]
+
+/-- `strlen`-cut of a buffer, both ways of writing it. -/
+theorem cstr_append_zero : ∀ (l : Bytes), Model.Codec.cstr (l ++ [0]) = l.take (cstrLen l)
+  | [] => by simp [Model.Codec.cstr, cstrLen]
+  | b :: r => by
+    by_cases hb : b = 0
+    · subst hb; simp [Model.Codec.cstr, cstrLen]
+    · have hb' : (b == 0) = false := by simpa using hb
+      have ih := cstr_append_zero r
+      simp only [Model.Codec.cstr] at ih
+      simp only [Model.Codec.cstr, List.cons_append, cstrLen, hb', Bool.false_eq_true, if_false,
+        List.take_succ_cons]
+      rw [List.takeWhile_cons_of_pos (by simpa using hb), ih]
+
+/-- `entityBytes = Codec.entityBytes`: C11's UTF-8 theorems speak about the parser's function. -/
+theorem entityBytes_eq (code : Nat) : entityBytes code = Model.Codec.entityBytes code := by
+  unfold entityBytes Model.Codec.entityBytes
+  by_cases h1 : code ≥ 0x80000000
+  · simp only [h1, if_true]; rfl
+  · simp only [h1, if_false]
+    by_cases h2 : code < 0x80
+    · simp only [h2, if_true]
+      by_cases h0 : code = 0
+      · subst h0; rfl
+      · have hne : UInt8.ofNat code ≠ 0 := Codec.ofNat_ne_zero code (by omega) (by omega)
+        have hb : (code == 0) = false := by simpa using h0
+        simp only [hb, Bool.false_eq_true, if_false]
+        rw [Codec.cstr_cons_ne _ _ hne, Codec.cstr_zero]
+    · simp only [h2, if_false]
+      obtain ⟨bs, hl, _, _, _⟩ := Codec.entityLoop_ok code (by omega) (by omega)
+      rw [hl, entityLoop_eq 5 code [] 6 bs hl (by omega)]
+      show _ = Except.ok (Model.Codec.cstr (bs ++ [0]))
+      rw [cstr_append_zero]
 
 end Wbxml.Lemmas.ParserBridge
